@@ -110,6 +110,9 @@ pub fn render(s: &TypeSpec) -> Option<Rendered> {
     }
     o.push_str("            o.tally(\"placements\", 3);\n");
     o.push_str("        }\n    }\n");
+    o.push_str("    for (i, a) in xs.iter().enumerate() {\n        let exp = expected(a, a);\n");
+    o.push_str(&format!("        let got = {};\n", cmp_expr("a", "a")));
+    o.push_str("        o.check(got == exp, || format!(\"value {i} compared with itself (same object): {:?} instead of {:?}\", got, exp));\n    }\n");
     // self-validation of the oracle's discriminant arithmetic where the language lets us observe it
     let all_unit = s.variants.iter().all(|v| v.shape == Shape::Unit);
     if all_unit {
@@ -168,8 +171,8 @@ pub fn behaviour() -> Behaviour {
         cfg,
         adjust,
         render,
-        quick: 300,
-        thorough: 6000,
+        quick: 1000,
+        thorough: 15000,
         batch: 20,
         assumptions: &["layout-dependent behaviour is observed on x86-64 only; the debug build turns misaligned reads into aborts"],
     }
